@@ -274,6 +274,13 @@ def hand_new_pkgs():
     top = hand_struct("Omega", [hand_embed(mid), hand_field("total")])
     tag = hand_struct("Zeta", [hand_field("label", "string")])
     out.append(build_new_pkg([e, mid, top, tag], ["-getset"], extra_feats=["hand-chain3"]))
+    # the same package imported under two names, each used by one type: the merged file needs both import specs
+    # (MergeSources de-duplicates by path AND name)
+    a = hand_struct("Alpha", [hand_field("wait", "time.Duration")])
+    b = hand_struct("Beta", [hand_field("pause", "t2.Duration"), hand_field("n")])
+    pk = build_new_pkg([a, b], [], extra_feats=["hand-import-alias"])
+    pk["files"]["t.go"] = pk["files"]["t.go"].replace('import (\n\t"time"\n)', 'import (\n\t"time"\n\tt2 "time"\n)')
+    out.append(pk)
     return out
 
 
